@@ -7,3 +7,15 @@ claim('C10', 'deductive VCs (pyvc, z3+cvc5) over older_than / parse_deletion_dat
       'every obligation generated from the current source (strict age comparison, first-DeletionDate-line parsing, TRASH_DATE clock, '
       'per-entry purge-iff-older monitor, payload-then-info, orphan rule, path_of_backup_copy precondition at its call sites) is discharged for all DAYS>=0, dates, contents and listings',
       TB, 'DESIGN.md section 4 C10')
+
+claim('C11', 'deductive VCs (pyvc): frame obligations on every removal event of Emptier.do_empty / RmCmd.run; remove_file2 / path_of_backup_copy contracts',
+      'every removal reachable from trash-empty and trash-rm is proved to name an entry directly under files/ or info/ of the trash directory being processed '
+      '(for every listing, info content, trash-dir spelling, fault outcome); remove_file2 unlinks first and calls rmtree only on real directories; '
+      'path_of_backup_copy precondition (usable stem) holds at each call site',
+      TB + '; shutil.rmtree / os.remove never follow links (axiom about the OS); a trash dir reached through a symlink is judged by its path string', 'DESIGN.md section 4 C11')
+claim('C12', 'deductive VCs (pyvc): Filter.matches vs glob spec, parse_path loop invariant, per-entry monitor of RmCmd.run',
+      'removed <=> readable, has a Path line and fnmatchcase(basename or full path, pattern), payload then info, nothing else: discharged for every pattern, content, listing, scanner event',
+      TB + '; the meaning of *, ?, [..] is fnmatch.fnmatchcase (uninterpreted, trusted; bounded battery vs the real CLI in replays)', 'DESIGN.md section 4 C12')
+claim('C14', 'deductive VCs (pyvc): zero-mutation frame under dry_run, per-entry print/remove correspondence, parse_reply + exhaustive code-point enumeration, Guard/EmptyAction',
+      'under --dry-run no mutating fs event exists on any path and one "would remove p" line is printed per path the purge would remove; the emptier is reached only after a reply beginning with y/Y',
+      TB + '; the non-interference of removals with later yields of the same generator is argued, not mechanised', 'DESIGN.md section 4 C14')
